@@ -136,7 +136,8 @@ def fst_desc(draw, pool=None, max_states=3, max_trans=6):
     n = min(draw(st.sampled_from([2, 3, 1, 2])), max_states)
     states = draw(st.lists(st.sampled_from(names), min_size=n, max_size=n, unique_by=repr))
     ins = ["a", "b"][:draw(st.sampled_from([2, 1]))]
-    outs = ["x", "y"]
+    # output symbols: single characters, symbols that are concatenations of other symbols, int / str twins
+    outs = draw(st.sampled_from([["x", "y"], ["x", "y", "xy"], ["x", "y"], [1, "1", "11"]]))
     lab = st.sampled_from(ins + [None] + ins)
     out = st.sampled_from([1, 0, 2, 1]).flatmap(lambda k: st.lists(st.sampled_from(outs), min_size=k, max_size=k))
     tr = st.tuples(st.sampled_from(states), lab, st.sampled_from(states), out).map(list)
